@@ -614,3 +614,75 @@ Fixpoint c20_run (cfg : c20_cfg) (st : c20_state) (ops : list c20_op) : c20_stat
 (* the contents of every register, in order: what the impl driver dumps too *)
 Definition c20_dump (st : c20_state) : list (c20_kind * list Q) :=
   map (fun o => (c20_k o, c20_vals st o)) (c20_regs st).
+
+(* ---------------------------------------------------------------- kind / flags of the exporting buffer (seeding round 6)
+   What an exporter promises through the buffer protocol, as far as the bindings look at it: whether its memory may be
+   written (Py_buffer.readonly), whether its format string is the one of the element type, its number of dimensions.
+   (Strides, offset and length are in the cells of the register the exporter is a view of, see c20_buffer_info.) *)
+Record c20_export := { c20_ex_readonly : bool; c20_ex_format_ok : bool; c20_ex_ndim : nat }.
+(* pybind11::buffer::request( bool writable ) = PyObject_GetBuffer( obj, PyBUF_STRIDES | PyBUF_FORMAT [ | PyBUF_WRITABLE ] ):
+   an exporter of read-only memory MUST refuse a request carrying PyBUF_WRITABLE (NumPy: ValueError "buffer source array is
+   read-only", raised as error_already_set); every other request is granted *)
+Definition c20_buffer_request (ex : c20_export) (writable : bool) : c20_res unit :=
+  if writable && c20_ex_readonly ex then C20_Exc C20_ValueError else C20_Ok tt.
+(* NumPyVector( pybind11::buffer buf ), numpyvector.hh, literally:
+     array_( buf )                                    (the same memory for a buffer of element type T)
+     pybind11::buffer_info info = buf.request();      (no write access asked for)
+     if (info.ndim != 1) DUNE_THROW( InvalidStateException, ... );
+     size_ = info.shape[0];
+     pybind11::buffer_info arrayInfo = array_.request(true);      <- c20_param_npv_request_writable, re-read from the source
+     dataPtr_ = arrayInfo.ptr; stride_ = arrayInfo.strides[0] / sizeof( value_type );
+   NumPyVector hands out non-const references (operator[], vec_access, DenseVector's *=, += ...), so the write access
+   has to be obtained here: a read-only exporter is refused before any entry is touched. *)
+Definition c20_npv_gate (ex : c20_export) : c20_res unit :=
+  match c20_buffer_request ex false with
+  | C20_Exc e => C20_Exc e
+  | C20_Ok _ =>
+      if negb (Nat.eqb (c20_ex_ndim ex) 1) then C20_Exc C20_RuntimeError
+      else c20_buffer_request ex c20_param_npv_request_writable
+  end.
+(* what a generated C++ function does with the NumPyVector once it is constructed: the accesses of the `npv` scripts *)
+Inductive c20_nacc := C20_ALen | C20_AGet (i : nat) | C20_ASet (i : nat) (x : Q) | C20_AIMulS (q : Q) | C20_AIAddS (q : Q) | C20_ANorm22.
+Definition c20_nacc_op (r : nat) (a : c20_nacc) : c20_op :=
+  match a with
+  | C20_ALen => C20_NLen r | C20_AGet i => C20_NGet r i | C20_ASet i x => C20_NSet r i x
+  | C20_AIMulS q => C20_NIMulS r q | C20_AIAddS q => C20_NIAddS r q | C20_ANorm22 => C20_NNorm22 r
+  end.
+(* op scripts extended by the exporter dimension: an ordinary op, or an access through a NumPyVector wrapped around an
+   EXPORTER ex of the memory of register r (a fresh view object with the given flags), or FieldVector_n( exporter of R[r] ):
+     init( pybind11::buffer x ) of registerFieldVector:  info = x.request();   (no write access: the entries are COPIED)
+     then the format / dimension checks and the stride loop of c20_construct_buffer *)
+Inductive c20_xop :=
+  | C20_X (op : c20_op)
+  | C20_NOnExport (ex : c20_export) (r : nat) (a : c20_nacc)
+  | C20_NewFromExport (ex : c20_export) (n r : nat).
+Definition c20_xstep (cfg : c20_cfg) (st : c20_state) (x : c20_xop) : c20_state * c20_obs :=
+  match x with
+  | C20_X op => c20_step_reg cfg st op
+  | C20_NOnExport ex r a =>
+      match c20_npv_gate ex with
+      | C20_Exc e => (st, C20_ObsExc e)
+      | C20_Ok _ => c20_step_reg cfg st (c20_nacc_op r a)
+      end
+  | C20_NewFromExport ex n r =>
+      match c20_buffer_request ex false with
+      | C20_Exc e => (st, C20_ObsExc e)
+      | C20_Ok _ =>
+          c20_on_any st r (fun o =>
+            match c20_construct_buffer n (c20_H st) (c20_ex_format_ok ex) (c20_ex_ndim ex) (c20_buffer_info (c20_cells o)) with
+            | C20_Ok vals => c20_push_new st C20_Vec vals
+            | C20_Exc e => (st, C20_ObsExc e)
+            end)
+      end
+  end.
+Fixpoint c20_xrun (cfg : c20_cfg) (st : c20_state) (xs : list c20_xop) : c20_state * list c20_obs :=
+  match xs with
+  | [] => (st, [])
+  | x :: rest =>
+      let (st', ob) := c20_xstep cfg st x in
+      let (st'', obs) := c20_xrun cfg st' rest in
+      (st'', ob :: obs)
+  end.
+(* an access through a read-only export *)
+Definition c20_xreadonly (x : c20_xop) : bool :=
+  match x with C20_NOnExport ex _ _ => c20_ex_readonly ex | _ => false end.
